@@ -8,7 +8,8 @@
 From Coq Require Import ZArith NArith List Bool.
 From Texel Require Import gen.BookConsts BookGraph.NMap BookGraph.BookGraph BookGraph.Equations
   BookGraph.ScoreFacts BookGraph.CodecProofs BookGraph.LocalProofs BookGraph.LinkProofs
-  BookGraph.UniqueProofs BookGraph.FixProofs BookGraph.GlobalProofs BookGraph.DepthProofs BookGraph.BookTheorems.
+  BookGraph.UniqueProofs BookGraph.FixProofs BookGraph.GlobalProofs BookGraph.DepthProofs BookGraph.PathProofs
+  BookGraph.BookTheorems.
 Import ListNotations.
 Local Open Scope Z_scope.
 
@@ -102,8 +103,10 @@ Print Assumptions C19_checker_sound.
 (** the global statement: for every operation history ... every node satisfies all equations.
     [C19_fixpoint_statement false] is about updateScores as it is in the tree and is FALSE
     (finding: the path error of a node whose own negamax score changed is not recomputed);
-    [C19_fixpoint_statement true] is about the code with hooks/fix-c19-patherr-requeue.patch and is
-    not proved in full (no counterexample in any run of the check against the patched tree). *)
+    [C19_fixpoint_statement true] is about the code with hooks/fix-c19-patherr-requeue.patch; it is
+    proved below for all histories without readFromFile (C19_fixpoint_fixed, with the acyclicity
+    and parity hypotheses put on the successor relation); histories with readFromFile are not
+    proved (no counterexample in any run of the check against the patched tree). *)
 Definition C19_fixpoint_statement (requeue : bool) : Prop := fixpoint_statement requeue.
 
 Theorem C19_fixpoint_refuted : ~ C19_fixpoint_statement false.
@@ -166,3 +169,20 @@ Theorem C19_depth_is_shortest_distance : forall g,
   (forall n, In n (bk_keys g) -> depth g n < INT_MAX -> path g (bk_root g) n (Z.to_nat (depth g n))).
 Proof. exact depth_shortest. Qed.
 Print Assumptions C19_depth_is_shortest_distance.
+
+(** the global statement for the code WITH hooks/fix-c19-patherr-requeue.patch (requeue = true),
+    proved for all histories without readFromFile: every node satisfies ALL its defining
+    equations (negamax, both expansion costs, both path errors, depth, links).
+    Hypotheses: chess inputs from an acyclic successor relation with alternating side to move,
+    white to move at the root, fewer than 2^31 - 1 nodes, and the run stays in the modelled
+    fragment ([bk_err] = 0: fuel, asserts of the C++ code, no path error reaching INT_MAX). *)
+Theorem C19_fixpoint_fixed : forall (succ : N -> N -> option N) (rk : N -> Z) (wtm : N -> bool),
+  (forall p m c, succ p m = Some c -> rk p < rk c) ->
+  (forall p m c, succ p m = Some c -> wtm c = negb (wtm p)) ->
+  forall bd, costs_nonneg bd ->
+  forall root addr ops, wtm root = true ->
+  ops_ok succ true bd (newBook root addr) ops ->
+  let g := run true bd (newBook root addr) ops in
+  bk_err g = 0%N -> all_equations bd g.
+Proof. exact fixpoint_fixed. Qed.
+Print Assumptions C19_fixpoint_fixed.
